@@ -3,13 +3,19 @@ from fractions import Fraction
 rnd = random.Random(int(sys.argv[1]))
 N = int(sys.argv[2])
 KEYS = ['[?', 'why[?]', '[?@.x]', 'a..b', '[*]', 'a,b', 'a:b', '$', '@', 'a]', '[', ']', '*', '..', 'a.b', '(a)', '!a', 'a&&b', 'a==b', '#', '?'] + ['a','b','c','ab','a b',"a'b",'a"b','','0','1','é','☺',"'a'",'a/b','a~b','\\','x\ty',' a','a ', '\x7f', 'a\x7fb', '"a"']
+PUNCT = ['.', '[', ']', '.[', '][', "']", "['", ',', ':', '*', '?', '@', '$', '0', '1', '10', 'a', 'b', ' ', '-', '..']
 PLAIN8 = ['a','b','c','ab','a b',"a'b",'a"b','']
 SCAL = [None, True, False, 0, 1, -1, 2, 3, 10, 1.0, 0.5, -0.5, 2.0, 1.5, 100.0, 2.0**-60, 0.0, '', 'a', 'b', 'ab', 'é', '𝄞', 'A', 'a b', '1']
 def doc(depth=0):
     r = rnd.random()
     if depth >= 3 or r < 0.35: return rnd.choice(SCAL)
     if r < 0.68: return [doc(depth+1) for _ in range(rnd.choice([0,1,2,2,3,4]))]
-    ks = rnd.sample(PLAIN8 if rnd.random()<0.8 else KEYS, rnd.choice([0,1,2,2,3]))
+    r2 = rnd.random()
+    if r2 < 0.75: ks = rnd.sample(PLAIN8, rnd.choice([0,1,2,2,3]))
+    elif r2 < 0.9: ks = rnd.sample(KEYS, rnd.choice([0,1,2,2,3]))
+    else:
+        # names spelt with the punctuation of paths: whatever rewrites a path or a name as TEXT (instead of building it from steps) trips here
+        ks = list({''.join(rnd.choice(PUNCT) for _ in range(rnd.choice([1, 2, 2, 3, 4]))) for _ in range(rnd.choice([1, 2, 3]))})
     return {k: doc(depth+1) for k in ks}
 def tag(v):
     if v is None: return None
@@ -108,6 +114,29 @@ for _ in range(N):
     if rnd.random() < 0.03:
         d = deep(rnd.choice([[{"id": 1}, {"id": 2}, {"id": 3}], {"a": {"b": 1}, "c": {"b": 2}, "b": 3}, [[1, 2], [3, [4, 5]]], d]))
         q = rnd.choice(['$..id', '$..b', '$..*', '$..[0]', '$..[*]', '$..[?@.id]', "$..['a']", '$..[-1]', '$..[::-1]', '$..a..b'])
+        print(json.dumps({"q": q, "doc": d, "tdoc": tag(d)}, ensure_ascii=False)); continue
+    if rnd.random() < 0.07:
+        # plain chains of names and indices in exact spelling (no blanks), leading to an existing node, to a sibling that does not exist, or applying
+        # a name to an array / an index to an object: the shape any "fast path for simple queries" would be written for
+        def locs(v, l, acc):
+            acc.append(l)
+            if isinstance(v, list):
+                for i, x in enumerate(v): locs(x, l + [i], acc)
+            elif isinstance(v, dict):
+                for k, x in v.items(): locs(x, l + [k], acc)
+            return acc
+        l = list(rnd.choice(locs(d, [], [])))
+        if l and rnd.random() < 0.3:
+            i = rnd.randrange(len(l)); l[i] = str(l[i]) if isinstance(l[i], int) else (int(l[i]) if l[i].isdigit() else rnd.choice([0, 1, 'zz', '"' + l[i] + '"']))
+        def step(st):
+            if isinstance(st, int): return '[%d]' % st
+            if "'" in st or '\\' in st or any(ord(c) < 32 for c in st): return '["' + st + '"]' if '"' not in st and '\\' not in st and all(ord(c) >= 32 for c in st) else '[0]'
+            r = rnd.random()
+            if r < 0.6: return "['" + st + "']"
+            if r < 0.8 and '"' not in st: return '["' + st + '"]'
+            if st.isidentifier() and st.isascii(): return '.' + st
+            return "['" + st + "']"
+        q = '$' + ''.join(step(st) for st in l)
         print(json.dumps({"q": q, "doc": d, "tdoc": tag(d)}, ensure_ascii=False)); continue
     ks = sorted(keys_of(d, set())) or ['a']
     if rnd.random() < 0.3: ks = ks + ['zz']
